@@ -339,3 +339,67 @@ def family_builders(n, d):
     B["CategoricalWasserstein/precomputed"] = (lambda **c: CategoricalWasserstein(metric="precomputed", **c), A, False)
     B["CategoricalModel/mi"] = (lambda **c: CategoricalModel(gemini="mi", **c), None, False)
     return B
+
+
+# ---------------------------------------------------------------------------------------------------------------
+# C03 (trace part): the direction handed to the optimiser vs a kink-safe numerical derivative of the DOCUMENTED objective
+def documented_objective(model, xb, ab, links=None):
+    """GEMINI of the model's predictions on the batch minus the documented penalty (+ pairwise constraint terms)."""
+    y = model._infer(xb, retain=False)
+    val = float(model.get_gemini()(y, ab))
+    name = type(model).__name__
+    if name == "RIM":
+        val -= model.reg * float(np.sum(model.W_ ** 2))
+    elif name == "KernelRIM":
+        K = model._compute_kernel(model.input_data_)
+        val -= model.reg * float(np.trace(model.W_.T @ K @ model.W_))
+    if links:
+        ids, ml, cl, f = links
+        pos = {s: p for p, s in enumerate(ids)}
+        for (i, j) in cl:
+            if i in pos and j in pos:
+                val += 0.5 * f * float(np.sum((y[pos[i]] - y[pos[j]]) ** 2))
+        for (i, j) in ml:
+            if i in pos and j in pos:
+                val -= 0.5 * f * float(np.sum((y[pos[i]] - y[pos[j]]) ** 2))
+    return val
+
+
+def make_direction_check(stats, links_of=None, h=1e-5, max_coords=60, rnd=None):
+    """Returns direction_check(rec, params, grads): every judged coordinate of every array handed to the optimiser must be
+    minus the derivative of the documented objective; a coordinate is judged only when the two one-sided differences agree
+    (no ReLU / TV / optimal-transport kink is straddled)."""
+    def check(rec, params, grads):
+        m = rec.model
+        xb, ab = rec.last_batch
+        links = links_of(rec) if links_of else None
+        f0 = documented_objective(m, xb, ab, links)
+        ok = True
+        coords = [(a, idx) for a, p in enumerate(params) for idx in np.ndindex(p.shape)]
+        if len(coords) > max_coords and rnd is not None:
+            coords = rnd.sample(coords, max_coords)
+        for a, idx in coords:
+            p = params[a]
+            old = p[idx]
+            p[idx] = old + h
+            fp = documented_objective(m, xb, ab, links)
+            p[idx] = old - h
+            fm = documented_objective(m, xb, ab, links)
+            p[idx] = old
+            dp, dm = (fp - f0) / h, (f0 - fm) / h
+            stats["coords"] += 1
+            if not (np.isfinite(dp) and np.isfinite(dm)):
+                stats["nonfinite"] += 1
+                continue
+            if abs(dp - dm) > 1e-3 * max(1.0, abs(dp), abs(dm)):
+                stats["kinks"] += 1
+                continue
+            want = -0.5 * (dp + dm)                 # the optimiser minimises: direction = -(d objective / d theta)
+            got = float(np.asarray(grads[a])[idx])
+            stats["judged"] += 1
+            if abs(got - want) > 1e-4 * max(1.0, abs(want)) + 1e-6:
+                ok = False
+                stats["bad"].append(dict(array=a, index=[int(v) for v in idx], handed=got, expected=want,
+                                         shape=list(p.shape), step=rec.t))
+        return ok
+    return check
